@@ -3,21 +3,12 @@
   generator reads) and their disjointness, decided on the whole tables.
 -/
 import Proofs.Peg.Sound
-import NarseseModel.Gen.ReadmeGrammar
+import NarseseModel.PegWF
 set_option autoImplicit false
 
 namespace Narsese.Peg
 
-/-- the grammar regenerated from README.md -/
-abbrev RG : Grammar := Gen.readmeGrammar
-
 /-! ### the character classes -/
-
-def psB (c : Char) : Bool := inRanges Gen.clsPunct c || inRanges Gen.clsSymbol c
-def lnB (c : Char) : Bool := inRanges Gen.clsLetter c || inRanges Gen.clsNumber c
-def acB (c : Char) : Bool := lnB c || c == '_' || c == '-'
-def wsB (c : Char) : Bool := inRanges Gen.clsWhite c
-def ddB (c : Char) : Bool := inRanges [(48, 57)] c || c == '.'
 
 theorem cls_punct : RG.cls? "PUNCTUATION" = some Gen.clsPunct := by decide +kernel
 theorem cls_symbol : RG.cls? "SYMBOL" = some Gen.clsSymbol := by decide +kernel
